@@ -1,0 +1,30 @@
+//! Verification hooks: read access to crate-private fields of the streaming KZG types.
+//! Compiled only with `--cfg arkworks_rs_poly_commit_verif`; add-only.
+use super::{time::CommitterKey, Commitment, VerifierKey};
+use ark_ec::pairing::Pairing;
+#[cfg(not(feature = "std"))]
+use ark_std::vec::Vec;
+
+/// The group element inside a commitment
+pub fn commitment_point<E: Pairing>(c: &Commitment<E>) -> E::G1Affine {
+    c.0
+}
+
+/// A commitment holding the given group element
+pub fn commitment_from_point<E: Pairing>(p: E::G1Affine) -> Commitment<E> {
+    Commitment(p)
+}
+
+/// (powers_of_g, powers_of_g2) of a committer key
+pub fn committer_key_parts<E: Pairing>(
+    ck: &CommitterKey<E>,
+) -> (&Vec<E::G1Affine>, &Vec<E::G2Affine>) {
+    (&ck.powers_of_g, &ck.powers_of_g2)
+}
+
+/// (powers_of_g, powers_of_g2) of a verifier key
+pub fn verifier_key_parts<E: Pairing>(
+    vk: &VerifierKey<E>,
+) -> (&Vec<E::G1Affine>, &Vec<E::G2Affine>) {
+    (&vk.powers_of_g, &vk.powers_of_g2)
+}
